@@ -24,6 +24,9 @@ Clause → theorem
   … log-scale parameter: μ ↦ μ + log c                                  argmax_equivariant_logscale,
                                                                         lognormal_mle_equivariant
   … reciprocal-scale parameter (generalized gamma): λ ↦ λ/c             genGamma_mle_equivariant
+  … Weibull (any shape constraint), exponentiated Weibull               weibull_mle_equivariant, expWeibull_mle_equivariant
+  the unconstrained 3-parameter Weibull likelihood has no maximiser     weibull_likelihood_unbounded, weibull_no_maximiser
+  (known findings C12-weibull-unbounded-likelihood-*)
   Normal fit (scipy's closed form) is exactly equivariant               normal_closed_form_equivariant
   LogNormal fit with floc=0 (closed form) is exactly equivariant        lognormal_closed_form_equivariant
   Normal / LogNormal closed forms ARE the arg-max (≥ every admissible   normal_mle_is_argmax, normal_mle_strict,
@@ -698,12 +701,15 @@ theorem normfit_not_argmax (l2pi : ℝ) :
 
 Parameter vectors in virocon's order.  `pow`, `lgamma` abstract. -/
 
-/-- Weibull `(α, β, γ)`: admissible iff `α, β > 0` and every observation lies above `γ`.
+/-- Weibull `(α, β, γ)`: admissible iff `α > 0`, the shape satisfies a constraint `K` (any
+constraint: it is not touched by scaling; e.g. `1 ≤ β` — without one the 3-parameter likelihood is
+unbounded as `γ → min x` for `β < 1` and no maximiser exists) and every observation lies above `γ`.
 A maximiser for `x` is mapped to the maximiser `(c·α, β, c·γ)` for `c·x`. -/
-theorem weibull_mle_equivariant (pow : ℝ → ℝ → ℝ) (xs : List ℝ) (c : ℝ) (hc : 0 < c) (θ : ℝ × ℝ × ℝ)
-    (h : IsArgmax (fun θ : ℝ × ℝ × ℝ => 0 < θ.1 ∧ 0 < θ.2.1 ∧ ∀ x ∈ xs, θ.2.2 < x)
+theorem weibull_mle_equivariant (pow : ℝ → ℝ → ℝ) (K : ℝ → Prop) (xs : List ℝ) (c : ℝ) (hc : 0 < c)
+    (θ : ℝ × ℝ × ℝ)
+    (h : IsArgmax (fun θ : ℝ × ℝ × ℝ => 0 < θ.1 ∧ K θ.2.1 ∧ ∀ x ∈ xs, θ.2.2 < x)
       (fun θ => sumLogPdf (weibullLogPdf Real.log pow θ.1 θ.2.1 θ.2.2) xs) θ) :
-    IsArgmax (fun θ : ℝ × ℝ × ℝ => 0 < θ.1 ∧ 0 < θ.2.1 ∧ ∀ x ∈ xs.map (c * ·), θ.2.2 < x)
+    IsArgmax (fun θ : ℝ × ℝ × ℝ => 0 < θ.1 ∧ K θ.2.1 ∧ ∀ x ∈ xs.map (c * ·), θ.2.2 < x)
       (fun θ => sumLogPdf (weibullLogPdf Real.log pow θ.1 θ.2.1 θ.2.2) (xs.map (c * ·)))
       (c * θ.1, θ.2.1, c * θ.2.2) := by
   refine argmax_transport _ _ _ _ (fun θ => (c * θ.1, θ.2.1, c * θ.2.2))
@@ -722,6 +728,63 @@ theorem weibull_mle_equivariant (pow : ℝ → ℝ → ℝ) (xs : List ℝ) (c :
     · simp [mul_inv_cancel_left₀ hc.ne']
   · rintro ⟨a, b, g⟩ ⟨ha, _, _⟩
     exact weibull_ll_scale_law pow a b g c xs hc ha
+
+
+/-! ### why a shape constraint is needed: the unconstrained 3-parameter Weibull likelihood is unbounded
+
+This backs the known findings `C12-weibull-unbounded-likelihood-*`: when the fitted shape is below 1
+the optimiser is climbing a spike without a top, so "the estimate" that equivariance talks about
+does not exist. -/
+
+/-- for the sample `[1, 2]`, scale 1 and shape 1/2 the log-likelihood exceeds every bound as the
+location approaches the smallest observation -/
+theorem weibull_likelihood_unbounded (M : ℝ) :
+    ∃ g : ℝ, g < 1 ∧
+      M < sumLogPdf (weibullLogPdf Real.log (fun z y => z ^ y) 1 (1 / 2) g) [1, 2] := by
+  set e := Real.exp (-(2 * (|M| + 10))) with he
+  have he0 : 0 < e := Real.exp_pos _
+  have hloge : Real.log e = -(2 * (|M| + 10)) := Real.log_exp _
+  have hM : M ≤ |M| := le_abs_self M
+  have hM0 : 0 ≤ |M| := abs_nonneg M
+  have he1 : e ≤ 1 := by
+    rw [he, ← Real.exp_zero]; exact Real.exp_le_exp.mpr (by linarith)
+  have hl2 : Real.log 2 ≤ 1 := by
+    have := Real.log_le_sub_one_of_pos (show (0:ℝ) < 2 by norm_num); linarith
+  have hlhalf : Real.log (1 / 2) = -Real.log 2 := by
+    rw [one_div, Real.log_inv]
+  have b1 : e ^ (1 / 2 : ℝ) ≤ 1 := Real.rpow_le_one he0.le he1 (by norm_num)
+  have b2 : (1 + e) ^ (1 / 2 : ℝ) ≤ 2 := by
+    have h1 : (1 + e) ^ (1 / 2 : ℝ) ≤ (2 : ℝ) ^ (1 / 2 : ℝ) :=
+      Real.rpow_le_rpow (by linarith) (by linarith) (by norm_num)
+    have h2 : (2 : ℝ) ^ (1 / 2 : ℝ) ≤ (2 : ℝ) ^ (1 : ℝ) :=
+      Real.rpow_le_rpow_of_exponent_le (by norm_num) (by norm_num)
+    rw [Real.rpow_one] at h2
+    linarith
+  have b3 : Real.log (1 + e) ≤ 1 := by
+    have := Real.log_le_log (show 0 < 1 + e by linarith) (show 1 + e ≤ 2 by linarith)
+    linarith
+  refine ⟨1 - e, by linarith, ?_⟩
+  have s1 : sumLogPdf (weibullLogPdf Real.log (fun z y => z ^ y) 1 (1 / 2) (1 - e)) [1, 2] =
+      (Real.log (1 / 2) - Real.log 1 + (1 / 2 - 1) * Real.log e - e ^ (1 / 2 : ℝ)) +
+      (Real.log (1 / 2) - Real.log 1 + (1 / 2 - 1) * Real.log (1 + e) - (1 + e) ^ (1 / 2 : ℝ)) := by
+    simp only [sumLogPdf, weibullLogPdf, List.map_cons, List.map_nil, List.sum_cons, List.sum_nil]
+    have a1 : ((1 : ℝ) - (1 - e)) / 1 = e := by ring
+    have a2 : ((2 : ℝ) - (1 - e)) / 1 = 1 + e := by ring
+    rw [a1, a2]; ring
+  rw [s1, hloge, Real.log_one, hlhalf]
+  nlinarith
+
+/-- hence no parameter vector maximises the unconstrained 3-parameter Weibull likelihood of `[1, 2]` -/
+theorem weibull_no_maximiser :
+    ¬ ∃ θ : ℝ × ℝ × ℝ, IsArgmax (fun θ : ℝ × ℝ × ℝ => 0 < θ.1 ∧ 0 < θ.2.1 ∧ ∀ x ∈ ([1, 2] : List ℝ), θ.2.2 < x)
+      (fun θ => sumLogPdf (weibullLogPdf Real.log (fun z y => z ^ y) θ.1 θ.2.1 θ.2.2) [1, 2]) θ := by
+  rintro ⟨θ, _, hmax⟩
+  obtain ⟨g, hg, hM⟩ := weibull_likelihood_unbounded
+    (sumLogPdf (weibullLogPdf Real.log (fun z y => z ^ y) θ.1 θ.2.1 θ.2.2) [1, 2])
+  have := hmax (1, 1 / 2, g) ⟨by norm_num, by norm_num, by
+    intro x hx; simp at hx; rcases hx with rfl | rfl <;> linarith⟩
+  simp only at this
+  linarith
 
 /-- log-normal `(μ, σ)`, positive data: `(μ̂, σ̂) ↦ (μ̂ + log c, σ̂)` -/
 theorem lognormal_mle_equivariant (l2pi : ℝ) (xs : List ℝ) (hx : ∀ x ∈ xs, 0 < x) (c : ℝ) (hc : 0 < c)
